@@ -4,5 +4,5 @@ fn parse_packet_by_version<'a>(&'a mut self, packet: &'a [u8]) -> (r: Result<Par
         final(self).allowed_versions == old(self).allowed_versions,
         subres_eq(to_subres(r), pp_spec(state_of(*old(self)), old(self).allowed_versions@, packet@).0),
         state_of(*final(self)) == pp_spec(state_of(*old(self)), old(self).allowed_versions@, packet@).1,
-        r is Ok ==> r->Ok_0.remaining@.len() + 2 <= packet@.len(),
+        r is Ok ==> r->Ok_0.remaining@.len() + 2 <= packet@.len() && is_suffix(r->Ok_0.remaining@, packet@),
         packet@.len() >= 2 && !old(self).allowed_versions@.contains(be16(packet@, 0)) ==> *final(self) == *old(self),
